@@ -272,8 +272,13 @@ func (csm *ClusterShardMapper) mapShards(csming *ClusterShardMapping, sources in
 		case *influxql.SubQuery:
 			subMin, subMax := tmin, tmax
 			valuer := influxql.NowValuer{Now: time.Now(), Location: s.Statement.Location}
-			_, t, err := influxql.ConditionExpr(s.Statement.Condition, &valuer)
+			// The rows of the inner sources are selected by the subquery's own condition. The outer
+			// condition speaks about the subquery's output columns, which may be renamed or computed
+			// (SELECT region AS host ...), so it must not narrow the shards of the inner sources.
+			var subCond influxql.Expr
+			cond, t, err := influxql.ConditionExpr(s.Statement.Condition, &valuer)
 			if err == nil {
+				subCond = cond
 				if t.MinTimeNano() != influxql.MinTime {
 					subMin = t.Min
 				}
@@ -281,7 +286,7 @@ func (csm *ClusterShardMapper) mapShards(csming *ClusterShardMapping, sources in
 					subMax = t.Max
 				}
 			}
-			if err := csm.mapShards(csming, s.Statement.Sources, subMin, subMax, condition, opt); err != nil {
+			if err := csm.mapShards(csming, s.Statement.Sources, subMin, subMax, subCond, opt); err != nil {
 				return err
 			}
 			if len(s.Statement.InConditons) > 0 {
